@@ -154,7 +154,10 @@ def check_cont(case):
     # a bool bound makes JAX work in float32 (bool is not a floating type): float32 accuracy
     f32 = False
     etol = 1e-5 if f32 else 1e-12
-    if arr.ndim != 1 or arr.shape[0] != n_i:
+    if n_i < 1:
+        msgs.append(f"{desc}: accepted although n_points < 1")
+        bucket = "n_points"
+    elif arr.ndim != 1 or arr.shape[0] != n_i:
         msgs.append(f"{desc}: array form has shape {arr.shape}, expected ({n_i},)")
     elif not np.isfinite(arr).all():
         msgs.append(f"{desc}: array form contains non-finite values {arr[:5].tolist()}")
